@@ -264,7 +264,7 @@ pub fn unhex(s: &str) -> Vec<u8> {
 /// glibc's malloc trims / munmaps every freed trace buffer; with 16 worker threads that dominates
 /// execution-heavy checks. Keep freed memory in the arena instead (no effect on verdicts).
 pub fn tune_allocator() {
-    #[cfg(all(target_os = "linux", target_env = "gnu"))]
+    #[cfg(all(target_os = "linux", target_env = "gnu", not(miri)))]
     {
         extern "C" {
             fn mallopt(param: i32, value: i32) -> i32;
